@@ -19,7 +19,10 @@ THEOREMS = ["OdxVerif.Codec." + t for t in ["C05_error_classes", "C05_never_fore
 RULE = ("direct oracle (model-free fuzz): for every generated description (odxgen, through the XML loader) and for every layer of the shipped "
         "examples/somersault.pdx (DiagLayer.decode, decode_response, every Request/Response.decode, DiagService.decode_message): byte strings = "
         "own encodings, every proper prefix of them, single-byte mutations, deletions, extensions, all strings of length <= 2 (quick) / 3 "
-        "(thorough) over {00,01,7f,80,ff} + the constants of the description, random strings. Failing input = any exception not derived from "
+        "(thorough) over {00,01,7f,80,ff} + the constants of the description, random strings; static fields whose items have an "
+        "input-dependent size (leading-length / min-max / param-length) and length keys behind identical / signed / LINEAR DOPs are enumerated "
+        "with every byte position mutated; corpus, enumerated families and every second random document (all in the thorough tier) are decoded "
+        "in strict mode and again in lenient mode (strict_mode = False; termination and exception class only). Failing input = any exception not derived from "
         "DecodeError, a hang (5 s alarm), a proper prefix that cuts a described object of a static layout and is not rejected, or a result "
         "whose re-encoding needs bytes the input did not have. distinct = distinct (description or layer entry point, byte string); "
         "non-trivial = the byte string is not an unmodified own encoding")
@@ -32,7 +35,10 @@ ASSUMPTIONS = ["model totality by construction (Lean functions are total; loops 
                "'the library's decode error' = DecodeError and its subclass DecodeMismatch; a plain OdxError or EncodeError escaping from decode is a violation",
                "trailing bytes behind the last described object may be ignored by a Request/Response/Structure decode (the statement does not forbid it)",
                "descriptions are well-formed (odxgen envelope): field items have positive length except in the corpus witnesses",
-               "OdxWarnings/DecodeError *warnings* (coded constant mismatch) are not exceptions"]
+               "OdxWarnings/DecodeError *warnings* (coded constant mismatch) are not exceptions",
+               "lenient mode (strict_mode = False) is meant to complete damaged PDUs with substitute values: there only 'terminates' and 'no other "
+               "exception type escapes' are evaluated; PARAM-LENGTH-INFO objects of a float base type are not generated (a key other than 32/64 "
+               "is reported as a plain OdxError, classified as ill-formed description)"]
 
 logging.getLogger("odxtools").setLevel(logging.CRITICAL)
 DEC_OK = ("ok", "decode", "mismatch")
